@@ -191,6 +191,7 @@ _spec_of('tables')['fragments'] = {
     'replication_is_delayed': {'class': 'TableR', 'method': 'lookup', 'expr': 'Compare', 'params': {'id_': 'int'}},
 }
 
+_spec_of('descriptors')['tree_walk'] = {'func': 'flat_member_ids'}
 _spec_of('descriptors')['queue_walk'] = {'class': 'BufrTemplate', 'method': 'original_descriptor_ids'}
 _spec_of('tables')['iter_builder'] = {'func': '_descriptors_from_ids_iter'}
 _spec_of('tables')['imports'] = ['BufrModel.Gen.PyDescriptors']
@@ -3037,6 +3038,9 @@ class ModuleGen(object):
                 st.append('  %s : %s' % (lean_ident(k), lean_type(attrs[k])))
             func_texts.append('\n'.join(st))
             func_texts.extend(texts)
+        if spec.get('tree_walk'):                               # w5-smallsrc: descriptors.flat_member_ids
+            from harness import py2lean_small
+            py2lean_small.render_tree_walk(self, spec, func_texts)
         if spec.get('queue_walk'):                              # w5-smallsrc: BufrTemplate.original_descriptor_ids
             from harness import py2lean_small
             py2lean_small.render_queue_walk(self, spec, func_texts)
